@@ -402,14 +402,11 @@ impl Storage for MemStore {
                     entries.remove(&doc.id);
                 }
             });
-        self.metadata
-            .write()
-            .entry(keyspace.to_string())
-            .and_modify(|entries| {
-                for doc in docs {
-                    entries.insert(doc.id, (doc.last_updated, true));
-                }
-            });
+        let mut metadata = self.metadata.write();
+        let entries = metadata.entry(keyspace.to_string()).or_default();
+        for doc in docs {
+            entries.insert(doc.id, (doc.last_updated, true));
+        }
 
         Ok(())
     }
